@@ -8,8 +8,8 @@ PLANS = {
     "C05": {"twin": ["TwinBlocks", "TwinTaus"], "single": []},
     "C10": {"twin": ["TwinFull"], "single": []},
     "C11": {"twin": ["TwinChan", "TwinCtl"], "single": ["C11_MaskUntouched", "C03_CallOk"]},
-    "C16": {"twin": ["TwinFull"], "single": []},
-    "C17": {"twin": ["TwinCtl"], "single": []},
+    "C16": {"twin": ["TwinFull"], "single": ["C16_Flush"]},
+    "C17": {"twin": ["TwinCtl", "TwinNear"], "single": []},
     "C18": {"twin": ["TwinFull"], "single": []},
 }
 
@@ -151,7 +151,36 @@ def c16_scripts(rng, tier, model_prefixes):
         n["signal"] = "noise"
         n.pop("probe", None)
         S.append(build(n, ops0[1:], 4))
+    # flushing: constant ratio, some audio, then None calls until the tail must be out (C16_Flush);
+    # the core twin processes explicit zero chunks
+    for _ in range(n_gen):
+        for kind in gen.KINDS:
+            n = calm(gen.new_op(rng, kind, small=rng.random() < 0.5))
+            n["signal"] = "noise"
+            n.pop("probe", None)
+            n["ch"] = rng.choice([1, 2])
+            ops = [with_id(n, 0), with_id(n, 1), {"op": "note", "twin": "full", "a": 0, "b": 1}]
+            for _k in range(rng.randrange(1, 6)):
+                ops += [{"op": "process", "id": 0}, {"op": "process", "id": 1}]
+            f = rng.choice([[1, 2], [1, 3], [2, 3]])
+            ops += [{"op": "partial", "id": 0, "kf": f, "via": rng.choice(["into", "alloc"])},
+                    {"op": "process", "id": 1, "zf": f}]
+            L = 8 if kind.startswith("Fast") else (n.get("L", 8) if kind in gen.ASYNC else 0)
+            for _k in range(60):
+                ops += [{"op": "partial", "id": 0, "k": -1, "via": rng.choice(["into", "alloc", "vec_into"])},
+                        {"op": "process", "id": 1, "zero_from": 0}]
+            S.append(ops)
     return S
+
+
+def near_bound(n):
+    """numeric guard of C17: |f32 - f64| in units of f32 epsilon * signal peak. Measured on the unchanged
+    tree: <= 0.7*L units for the sinc types (L = sinc_len), <= 3 polynomial, <= 15 FFT; bound ~8x that."""
+    if n["kind"].startswith("Sinc"):
+        return 64 + 4 * (8 * ((n.get("L", 8) + 7) // 8))
+    if n["kind"].startswith("Fast"):
+        return 64
+    return 256
 
 
 def c17_scripts(rng, tier, model_prefixes):
@@ -164,11 +193,14 @@ def c17_scripts(rng, tier, model_prefixes):
             n = calm(h[0])
             n["signal"] = "noise"
             n.pop("probe", None)
+            n["signal"] = rng.choice(["noise", "big"])
             a, b = dict(n), dict(n)
             a["T"], b["T"] = 32, 64
             ops = [with_id(a, 0), with_id(b, 1), {"op": "note", "twin": "ctl", "a": 0, "b": 1}]
             for o in h[1:]:
                 ops += [with_id(o, 0), with_id(o, 1)]
+                if o["op"] == "process":
+                    ops.append({"op": "cmp", "a": 0, "b": 1, "bound": near_bound(n)})
             S.append(ops)
     for ops0 in model_prefixes:
         n = dict(ops0[0])
